@@ -1,12 +1,674 @@
-//! C17 — (stub: no ops yet)
+//! C17 — `sage_cloudpath::mgf::MgfReader::parse`
+//!
+//!   mgf    fid h:text [k (h:token 0|1 u32)…] [m codepoint…]  ->  ok [n spectrum…] | err | err:utf8 | panic
+//!   mgfraw (same format; the text is a mutated / hand-made byte string, possibly not UTF-8)
+//!
+//! `text` is the document handed to the reader. The token table lists every substring the reader could
+//! hand to `str::parse::<f32>` (over-approximated: per trimmed line, everything after the first `=`,
+//! and every ASCII-whitespace separated column of the line and of that remainder) together with the
+//! result of `str::parse::<f32>` (the one trusted primitive: the Lean model never parses decimal text).
+//! The code point list holds the non-ASCII characters of the text for which `char::is_numeric` holds
+//! (second trusted primitive, a Unicode table). `exec` ignores both lists.
+//!
+//!   spectrum := fid level h:id [p (u32 mz, opt u32 intensity, opt charge, window, sref?, opt u32 iim)…]
+//!               repr u32 rt u32 iit u32 tic [n u32 mz…] [n u32 intensity…] mobility?
+//!   window   := 0 | 1 da|ppm|pct u32 lo u32 hi
+//! NaNs are printed as the canonical quiet NaN (Lean's `Float32.toBits` canonicalises too).
 use super::Info;
-use crate::proto::{Case, Rng, Tier, Toks};
+use crate::proto::{Case, Out, Rng, Tier, Toks};
+use sage_cloudpath::mgf::MgfReader;
+use sage_core::mass::Tolerance;
+use sage_core::spectrum::{RawSpectrum, Representation};
 
-pub const OPS: &[&str] = &[];
-pub const INFO: Info = Info { rule: "", serial: false };
+pub const OPS: &[&str] = &["mgf", "mgfraw"];
+pub const INFO: Info = Info {
+    rule: "mgf: structured MGF documents (header CHARGE/TOL/TOLU present/absent/repeated, junk and comment \
+           lines (# ; !), blank lines, 0-5 blocks with fields in random order, per-block CHARGE/TOL/TOLU \
+           overrides, 0-3 PEPMASS lines with/without intensity, peaks with/without/with rejected intensity, \
+           CHARGE forms '2+' '2+ and 3+' '3' '' 'unknown' Unicode digits, TOLU Da/ppm/other, numeric tokens \
+           from a table incl. inf/NaN/-0/1e39/malformed, LF/CRLF/mixed endings, ASCII+Unicode indentation, \
+           missing END IONS, nested BEGIN IONS, field lines between blocks) + each multi-block document again \
+           with its blocks permuted + directed cases (old defects, override-no-leak, first-block defaults) + \
+           exhaustive line sequences over 12 line kinds (BEGIN, END, TITLE, PEPMASS, CHARGE, TOL, TOLU, peak, RT, peak with rejected intensity, rejected PEPMASS, CHARGE without digit) up to length 4 (quick) / 5 (thorough); \
+           mgfraw: byte-level mutations of such documents (truncation at every kind of position, byte flips, \
+           inserted bytes incl. NUL/0xFF/CR/Unicode digits, dropped/duplicated/swapped lines), empty and \
+           whitespace-only files, no BEGIN IONS, invalid UTF-8. non-trivial = document contains at least one \
+           BEGIN IONS and one END IONS line; distinct by request",
+    serial: false,
+};
 
-pub fn gen(_rng: &mut Rng, _tier: Tier, _emit: &mut dyn FnMut(Case)) {}
+// ------------------------------------------------------------------------------------------- exec
 
-pub fn exec(_op: &str, _t: &mut Toks) -> Option<String> {
-    None
+fn fb(x: f32) -> u32 {
+    if x.is_nan() {
+        0x7fc0_0000
+    } else {
+        x.to_bits()
+    }
+}
+
+fn render_spectrum(o: &mut Out, s: &RawSpectrum) {
+    o.n(s.file_id).n(s.ms_level).s(&s.id);
+    o.n(s.precursors.len());
+    for p in &s.precursors {
+        o.n(fb(p.mz));
+        match p.intensity {
+            Some(i) => o.n(1).n(fb(i)),
+            None => o.n(0),
+        };
+        match p.charge {
+            Some(c) => o.n(1).n(c),
+            None => o.n(0),
+        };
+        match p.isolation_window {
+            None => o.n(0),
+            Some(Tolerance::Da(lo, hi)) => o.n(1).raw("da").n(fb(lo)).n(fb(hi)),
+            Some(Tolerance::Ppm(lo, hi)) => o.n(1).raw("ppm").n(fb(lo)).n(fb(hi)),
+            Some(Tolerance::Pct(lo, hi)) => o.n(1).raw("pct").n(fb(lo)).n(fb(hi)),
+        };
+        o.b(p.spectrum_ref.is_some());
+        match p.inverse_ion_mobility {
+            Some(i) => o.n(1).n(fb(i)),
+            None => o.n(0),
+        };
+    }
+    o.raw(match s.representation {
+        Representation::Centroid => "c",
+        Representation::Profile => "p",
+    });
+    o.n(fb(s.scan_start_time)).n(fb(s.ion_injection_time)).n(fb(s.total_ion_current));
+    o.n(s.mz.len());
+    for &m in &s.mz {
+        o.n(fb(m));
+    }
+    o.n(s.intensity.len());
+    for &i in &s.intensity {
+        o.n(fb(i));
+    }
+    o.b(s.mobility.is_some());
+}
+
+pub fn exec(_op: &str, t: &mut Toks) -> Option<String> {
+    let fid = t.usize()?;
+    let bytes = t.bytes()?;
+    // the two tables are for the model only
+    let _ = t.list(|t| {
+        let tok = t.bytes()?;
+        let v = t.opt(|t| t.usize())?;
+        Some((tok, v))
+    })?;
+    let _ = t.list(|t| t.usize())?;
+    // sage reads the file with `read_to_string`: invalid UTF-8 is an I/O error before the reader runs
+    let text = match String::from_utf8(bytes) {
+        Ok(s) => s,
+        Err(_) => return Some("err:utf8".into()),
+    };
+    match MgfReader::with_file_id(fid).parse(text) {
+        Ok(spectra) => {
+            let mut o = Out::new();
+            o.raw("ok").n(spectra.len());
+            for s in &spectra {
+                render_spectrum(&mut o, s);
+            }
+            Some(o.finish())
+        }
+        Err(_) => Some("err".into()),
+    }
+}
+
+// ------------------------------------------------------------------------------------------- requests
+
+/// every substring the reader could pass to `parse::<f32>`, with the primitive's answer
+fn token_table(text: &str) -> Vec<(String, Option<u32>)> {
+    let mut seen = std::collections::HashSet::new();
+    let mut out = Vec::new();
+    let mut add = |s: &str, out: &mut Vec<(String, Option<u32>)>| {
+        if seen.insert(s.to_string()) {
+            out.push((s.to_string(), s.parse::<f32>().ok().map(fb)));
+        }
+    };
+    for line in text.split('\n') {
+        let l = line.trim();
+        for tok in l.split_ascii_whitespace().take(2) {
+            add(tok, &mut out);
+        }
+        if let Some(i) = l.find('=') {
+            let rest = &l[i + 1..];
+            add(rest, &mut out);
+            for tok in rest.split_ascii_whitespace().take(2) {
+                add(tok, &mut out);
+            }
+        }
+    }
+    out
+}
+
+fn request(op: &str, fid: usize, bytes: &[u8]) -> String {
+    let mut o = Out::new();
+    o.raw(op).n(fid).bytes(bytes);
+    match std::str::from_utf8(bytes) {
+        Ok(text) => {
+            let tbl = token_table(text);
+            o.n(tbl.len());
+            for (tok, v) in &tbl {
+                o.s(tok);
+                match v {
+                    Some(b) => o.n(1).n(*b),
+                    None => o.n(0),
+                };
+            }
+            let mut nums: Vec<u32> = text.chars().filter(|c| !c.is_ascii() && c.is_numeric()).map(|c| c as u32).collect();
+            nums.sort();
+            nums.dedup();
+            o.n(nums.len());
+            for c in nums {
+                o.n(c);
+            }
+        }
+        Err(_) => {
+            o.n(0).n(0);
+        }
+    }
+    o.finish()
+}
+
+// ------------------------------------------------------------------------------------------- generator
+
+const NUM_PEAKY: &[&str] = &[
+    "983.6", "846.60", "73", "1e3", "1E-2", "5.", "367.069682741984", "56700.5185546875", "0", "0.0", "16777217",
+    "0.1", "1e-46", "25", "0.8963232289", "10", "3", "100.5", "1144.66272", "1e39", "3.4028236e38", "60", "120",
+    "4608.2421875", "228.3407898",
+];
+const NUM_OTHER: &[&str] = &[".5", "+7.25", "-3", "-0", "-0.0", "inf", "-inf", "NaN", "nan", "infinity", "-nan", "+.5e1", "-1e39"];
+const NUM_BAD: &[&str] = &["abc", "12abc", "1_000", "0x10", "１２", "1,5", "--1", "1e", "e5", ".", "٣", "2²", "1f32", "½"];
+const CHARGES: &[&str] = &[
+    "2+", "3+", "2+ and 3+", "3", "1+, 2+ and 3+", "2-", "12", "4+", "1+", "2+,3+,4+", "", "unknown", "٣+", "2+ and ٣+", "0", "+", "2+ and 3+ and 2+",
+];
+const TOLUS: &[&str] = &["Da", "ppm", "Da", "ppm", "da", "PPM", "mmu", "%", "", " Da", "ppm ", "Dalton", "ppmx"];
+const TITLES: &[&str] = &[
+    "spectrum 0", "a", "Spectrum 1", "b", "x=y", "τίτλος ٣", "BEGIN IONS", "1", "The first peptide - dodgy", "", "END IONS?", "scan=17 z=2",
+];
+const JUNK: &[&str] = &[
+    "# a comment", "; c", "! c", "COM=10 pmol digest", "SCANS=3", "SEQ=n-AC[DHK]", "ITOL=1", "ITOLU=Da", "MASS=Monoisotopic",
+    "CHARGE", "TOL", "END", "BEGIN", "begin ions", "end ions", "TITLE", "PEPMASS 1", "#CHARGE=5+", ";TOL=3", "!TOLU=Da",
+    "RTINSECONDS", "USERNAME=Lou Scene", "=", "=5", "###", "IT_MODS=Oxidation (M)", "charge=2+", "Tol=5",
+];
+const HEADER_NUMERIC_JUNK: &[&str] = &["1024.6", "2321 seq(n-ACTL) comp(2[C])", "1896 ions(345.6:24.7)"];
+const UNI_NUMERIC_LINES: &[&str] = &["٣00 5", "² 1", "½ 3", "Ⅷ", "１００ 5", "٣", "०.5 1"];
+
+fn num(rng: &mut Rng, p_other: u32, p_bad: u32) -> &'static str {
+    if rng.chance(p_bad, 100) {
+        *rng.pick(NUM_BAD)
+    } else if rng.chance(p_other, 100) {
+        *rng.pick(NUM_OTHER)
+    } else {
+        *rng.pick(NUM_PEAKY)
+    }
+}
+
+#[derive(Default, Clone)]
+struct Flags {
+    header_charge: bool,
+    header_tol: bool,
+    block_override: bool,
+    first_block_default: bool,
+    multi_pepmass: bool,
+    peak_no_intensity: bool,
+    bad_token: bool,
+    unterminated: bool,
+    nested_begin: bool,
+    between_fields: bool,
+    unicode: bool,
+    complete_blocks: usize,
+}
+
+/// one block body (without BEGIN/END), returns (lines, has own charge/tol/tolu)
+fn gen_block(rng: &mut Rng, fl: &mut Flags, wellformed: bool) -> (Vec<String>, bool) {
+    let mut fields: Vec<String> = Vec::new();
+    let p_bad = if wellformed { 0 } else { 8 };
+    let p_other = if wellformed { 0 } else { 10 };
+    if rng.chance(92, 100) {
+        let mut t = *rng.pick(TITLES);
+        if wellformed && t.is_empty() {
+            t = "t";
+        }
+        fields.push(format!("TITLE={t}"));
+        if !wellformed && rng.chance(5, 100) {
+            fields.push(format!("TITLE={}", rng.pick(TITLES)));
+        }
+    }
+    let npm = *rng.pick(&[1usize, 1, 1, 1, 1, 0, 2, 3]);
+    if npm > 1 {
+        fl.multi_pepmass = true;
+    }
+    for _ in 0..npm {
+        let style = rng.below(10);
+        let a = num(rng, p_other, p_bad);
+        let b = num(rng, p_other, p_bad * 2);
+        fields.push(match style {
+            0..=4 => format!("PEPMASS={a}"),
+            5..=7 => format!("PEPMASS={a} {b}"),
+            8 => format!("PEPMASS={a}\t{b}  17"),
+            _ => {
+                if wellformed {
+                    format!("PEPMASS={a} {b}")
+                } else {
+                    (*rng.pick(&["PEPMASS=", "PEPMASS= ", "PEPMASS= 500", "PEPMASS=abc 5", "PEPMASS=5 abc"])).to_string()
+                }
+            }
+        });
+    }
+    let mut own = false;
+    if rng.chance(30, 100) {
+        own = true;
+        fields.push(format!("CHARGE={}", if wellformed { *rng.pick(&CHARGES[..10]) } else { *rng.pick(CHARGES) }));
+    }
+    if rng.chance(30, 100) {
+        own = true;
+        fields.push(format!("TOL={}", num(rng, p_other + 5, p_bad)));
+    }
+    if rng.chance(30, 100) {
+        own = true;
+        fields.push(format!("TOLU={}", if wellformed { *rng.pick(&TOLUS[..4]) } else { *rng.pick(TOLUS) }));
+    }
+    if rng.chance(50, 100) {
+        fields.push(format!("RTINSECONDS={}", num(rng, p_other, p_bad)));
+    }
+    for _ in 0..rng.below(3) {
+        fields.push((*rng.pick(JUNK)).to_string());
+    }
+    if rng.chance(20, 100) {
+        fields.push(String::new());
+    }
+    if !wellformed && rng.chance(4, 100) {
+        fl.nested_begin = true;
+        fields.push("BEGIN IONS".into());
+    }
+    rng.shuffle(&mut fields);
+    let npk = *rng.pick(&[0usize, 1, 1, 2, 3, 4, 6]);
+    let mut peaks: Vec<String> = Vec::new();
+    for _ in 0..npk {
+        let style = rng.below(20);
+        let m = if !wellformed && rng.chance(5, 100) { num(rng, 50, 30) } else { *rng.pick(NUM_PEAKY) };
+        let i = num(rng, p_other, p_bad);
+        peaks.push(match style {
+            0..=11 => format!("{m} {i}"),
+            12..=15 => {
+                fl.peak_no_intensity = true;
+                m.to_string()
+            }
+            16 => {
+                fl.peak_no_intensity = true;
+                format!("{m} ")
+            }
+            17 => format!("{m}\t{i}"),
+            18 => format!("{m}  {i} 2+"),
+            _ => {
+                if wellformed {
+                    format!("{m} {i}")
+                } else {
+                    fl.unicode = true;
+                    (*rng.pick(UNI_NUMERIC_LINES)).to_string()
+                }
+            }
+        });
+    }
+    let mut lines = fields;
+    if rng.chance(80, 100) {
+        lines.extend(peaks);
+    } else {
+        lines.extend(peaks);
+        rng.shuffle(&mut lines);
+    }
+    (lines, own)
+}
+
+struct Structured {
+    header: Vec<String>,
+    blocks: Vec<Vec<String>>, // each incl. BEGIN/END (END possibly missing) and trailing inter-block lines
+}
+
+fn gen_structured(rng: &mut Rng, fl: &mut Flags, wellformed: bool, max_blocks: usize) -> Structured {
+    let mut header: Vec<String> = Vec::new();
+    for _ in 0..rng.below(4) {
+        header.push((*rng.pick(JUNK)).to_string());
+    }
+    if rng.chance(50, 100) {
+        fl.header_charge = true;
+        header.push(format!("CHARGE={}", if wellformed { *rng.pick(&CHARGES[..10]) } else { *rng.pick(CHARGES) }));
+        if rng.chance(10, 100) {
+            header.push(format!("CHARGE={}", rng.pick(&CHARGES[..10])));
+        }
+    }
+    if rng.chance(45, 100) {
+        fl.header_tol = true;
+        header.push(format!("TOL={}", num(rng, 5, if wellformed { 0 } else { 8 })));
+    }
+    if rng.chance(45, 100) {
+        fl.header_tol = true;
+        header.push(format!("TOLU={}", if wellformed { *rng.pick(&TOLUS[..4]) } else { *rng.pick(TOLUS) }));
+    }
+    if !wellformed && rng.chance(15, 100) {
+        header.push((*rng.pick(HEADER_NUMERIC_JUNK)).to_string());
+    }
+    if !wellformed && rng.chance(10, 100) {
+        // query-only fields in the header are ignored
+        header.push((*rng.pick(&["TITLE=header title", "PEPMASS=500", "RTINSECONDS=60", "END IONS", "100 5"])).to_string());
+    }
+    if rng.chance(15, 100) {
+        header.push(String::new());
+    }
+    rng.shuffle(&mut header);
+    let nb = rng.below(max_blocks + 1);
+    let mut blocks = Vec::new();
+    for bi in 0..nb {
+        let (body, own) = gen_block(rng, fl, wellformed);
+        if own {
+            fl.block_override = true;
+        }
+        if bi == 0 && !own && (fl.header_charge || fl.header_tol) {
+            fl.first_block_default = true;
+        }
+        let mut b = vec![if !wellformed && rng.chance(3, 100) { "BEGIN IONS trailing".to_string() } else { "BEGIN IONS".to_string() }];
+        b.extend(body);
+        if wellformed || rng.chance(94, 100) {
+            b.push(if !wellformed && rng.chance(3, 100) { "END IONS trailing".to_string() } else { "END IONS".to_string() });
+            fl.complete_blocks += 1;
+        } else {
+            fl.unterminated = true;
+        }
+        // between blocks
+        if rng.chance(40, 100) {
+            b.push(String::new());
+        }
+        if rng.chance(15, 100) {
+            b.push((*rng.pick(JUNK)).to_string());
+        }
+        if !wellformed && rng.chance(6, 100) {
+            fl.between_fields = true;
+            b.push((*rng.pick(&["CHARGE=5+", "TITLE=leak", "TOL=7", "TOLU=Da", "PEPMASS=111", "100 5", "RTINSECONDS=600"])).to_string());
+        }
+        blocks.push(b);
+    }
+    Structured { header, blocks }
+}
+
+/// lines -> text with a choice of terminators and indentation
+fn render(rng: &mut Rng, lines: &[String], fl: &mut Flags) -> String {
+    let term_mode = rng.below(10); // 0..=6 LF, 7..=8 CRLF, 9 mixed
+    let indent_mode = rng.below(8); // 0..=3 none, 4..=5 eight spaces, 6..=7 random
+    const INDENTS: &[&str] = &["", " ", "\t", "  ", "\u{a0}", "\u{3000}", " \t ", "\u{2003}"];
+    let mut s = String::new();
+    let n = lines.len();
+    for (k, l) in lines.iter().enumerate() {
+        match indent_mode {
+            0..=3 => {}
+            4..=5 => s.push_str("        "),
+            _ => {
+                let i = *rng.pick(INDENTS);
+                if !i.is_ascii() {
+                    fl.unicode = true;
+                }
+                s.push_str(i)
+            }
+        }
+        s.push_str(l);
+        if indent_mode >= 6 && rng.chance(20, 100) {
+            s.push_str(*rng.pick(INDENTS));
+        }
+        let last = k + 1 == n;
+        if last && rng.chance(30, 100) {
+            break;
+        }
+        match term_mode {
+            0..=6 => s.push('\n'),
+            7..=8 => s.push_str("\r\n"),
+            _ => s.push_str(*rng.pick(&["\n", "\r\n", "\n", "\r\n", "\n\n", "\r"])),
+        }
+    }
+    if !s.is_ascii() {
+        fl.unicode = true;
+    }
+    s
+}
+
+fn flat(st: &Structured) -> Vec<String> {
+    let mut v = st.header.clone();
+    for b in &st.blocks {
+        v.extend(b.iter().cloned());
+    }
+    v
+}
+
+fn tagged(c: Case, fl: &Flags) -> Case {
+    c.tag_if(fl.header_charge, "header-charge")
+        .tag_if(fl.header_tol, "header-tol/tolu")
+        .tag_if(fl.block_override, "block-override")
+        .tag_if(fl.first_block_default, "first-block-uses-header-defaults")
+        .tag_if(fl.multi_pepmass, "multi-pepmass")
+        .tag_if(fl.peak_no_intensity, "peak-without-intensity")
+        .tag_if(fl.unterminated, "missing-END-IONS")
+        .tag_if(fl.nested_begin, "nested-BEGIN-IONS")
+        .tag_if(fl.between_fields, "field-lines-between-blocks")
+        .tag_if(fl.unicode, "non-ascii")
+        .tag_if(fl.complete_blocks == 0, "no-complete-block")
+        .tag_if(fl.complete_blocks >= 2, "multi-block")
+}
+
+fn nontrivial_text(b: &[u8]) -> bool {
+    let s = String::from_utf8_lossy(b);
+    s.contains("BEGIN IONS") && s.contains("END IONS")
+}
+
+fn emit_doc(emit: &mut dyn FnMut(Case), op: &str, fid: usize, bytes: &[u8], fl: &Flags, tags: &[&'static str]) {
+    let mut c = tagged(Case::new(request(op, fid, bytes)), fl);
+    for t in tags {
+        c = c.tag(t);
+    }
+    emit(c.nontrivial(nontrivial_text(bytes)));
+}
+
+const KINDS: &[&str] = &[
+    "BEGIN IONS", "END IONS", "TITLE=a", "PEPMASS=500.5 7", "CHARGE=2+ and 3+", "TOL=1.5", "TOLU=Da", "100.5 2", "RTINSECONDS=120", "100.5 x",
+    "PEPMASS=abc", "CHARGE=",
+];
+
+fn directed() -> Vec<(&'static str, String)> {
+    let b = |title: &str, extra: &str| format!("BEGIN IONS\nTITLE={title}\nPEPMASS=500.5\n{extra}100.5 2\nEND IONS\n");
+    vec![
+        ("old-defect-no-begin", "TITLE=a\n".to_string()),
+        ("old-defect-no-begin", "".to_string()),
+        ("old-defect-no-begin", "\n".to_string()),
+        ("old-defect-no-begin", "CHARGE=2+\nTOL=1\nTOLU=Da\n".to_string()),
+        ("old-defect-no-begin", "100 5\nEND IONS\n".to_string()),
+        ("old-defect-first-block", format!("CHARGE=2+ and 3+\n{}{}", b("a", ""), b("b", ""))),
+        ("old-defect-first-block", format!("TOL=10\nTOLU=ppm\n{}{}", b("a", ""), b("b", ""))),
+        ("old-defect-first-block", format!("CHARGE=2+\nTOL=0.5\nTOLU=Da\n{}", b("only", ""))),
+        ("override-no-leak", format!("CHARGE=2+\n{}{}{}", b("a", ""), b("b", "CHARGE=4+\nTOL=3\nTOLU=Da\n"), b("c", ""))),
+        ("override-no-leak", format!("{}{}", b("a", "CHARGE=4+\nTOL=3\nTOLU=Da\nRTINSECONDS=60\n"), b("b", ""))),
+        ("override-no-leak", format!("TOL=1\nTOLU=ppm\n{}{}", b("a", "TOLU=Da\n"), b("b", "TOL=2\n"))),
+        ("override-no-leak", format!("{}{}", b("a", "PEPMASS=600 5\n"), b("b", ""))),
+        ("rejected-block-no-leak", format!("BEGIN IONS\nTITLE=x\nCHARGE=4+\n100 1\nEND IONS\n{}", b("b", ""))),
+        ("rejected-block-no-leak", format!("BEGIN IONS\nPEPMASS=7\n100 1\n200 abc\nEND IONS\n{}", b("b", ""))),
+        ("charge-forms", format!("{}{}{}{}", b("a", "CHARGE=2+\n"), b("b", "CHARGE=3\n"), b("c", "CHARGE=12\n"), b("d", "CHARGE=2+ and 3+\n"))),
+        ("charge-no-digit", format!("{}{}", b("a", "CHARGE=\n"), b("b", "CHARGE=unknown\n"))),
+        ("charge-no-digit", format!("CHARGE=\n{}{}", b("a", ""), b("b", "CHARGE=1+\n"))),
+        ("tolu-forms", format!("TOL=2\n{}{}{}{}", b("a", "TOLU=Da\n"), b("b", "TOLU=ppm\n"), b("c", "TOLU=mmu\n"), b("d", ""))),
+        ("tol-negative", format!("{}{}", b("a", "TOL=-3\nTOLU=Da\n"), b("b", "TOL=NaN\nTOLU=ppm\n"))),
+        ("pepmass-empty", format!("{}", b("a", "PEPMASS=\n"))),
+        ("pepmass-empty", "BEGIN IONS\nTITLE=a\nPEPMASS=\n100 1\nEND IONS\n".to_string()),
+        ("rt", format!("{}{}{}", b("a", "RTINSECONDS=60\n"), b("b", "RTINSECONDS=abc\n"), b("c", "RTINSECONDS=0.8963232289\n"))),
+        ("tic-sum", "BEGIN IONS\nTITLE=a\nPEPMASS=1\n1 -0\nEND IONS\nBEGIN IONS\nTITLE=b\nPEPMASS=1\n1 16777216\n2 1\n3 1\nEND IONS\nBEGIN IONS\nTITLE=c\nPEPMASS=1\n1 inf\n2 -inf\nEND IONS\n".to_string()),
+        ("sage-test-file", "\n        BEGIN IONS\n        TITLE=spectrum 0\n        RTINSECONDS=0.8963232289\n        PEPMASS=367.069682741984 56700.5185546875\n        CHARGE=2+ and 3+\n        TOL=10\n        TOLU=ppm\n        148.2041016 \n        169.5001831 4608.2421875\n        END IONS\n        ".to_string()),
+        ("crlf", "CHARGE=2+\r\nBEGIN IONS\r\nTITLE=a\r\nPEPMASS=5\r\n100 1\r\nEND IONS\r\n".to_string()),
+        ("bare-cr", "CHARGE=2+\rBEGIN IONS\rTITLE=a\rPEPMASS=5\r100 1\rEND IONS\r".to_string()),
+        ("unicode-first-char", "BEGIN IONS\nTITLE=a\nPEPMASS=5\n٣00 5\n100 1\n² 1\nEND IONS\n".to_string()),
+        ("prefix-boundaries", "BEGIN IONSX\nTITLE=a\nPEPMASS=5\n100 1\nEND IONSX\n".to_string()),
+        ("prefix-boundaries", "BEGIN ION\nTITLE=a\nPEPMASS=5\n100 1\nEND IONS\n".to_string()),
+        ("prefix-boundaries", " BEGIN IONS \n TITLE= a \n PEPMASS= 5\n 100 1\n END IONS \n".to_string()),
+        ("title-no-leak", format!("{}BEGIN IONS\nPEPMASS=7\n100 1\nEND IONS\n{}", b("a", ""), b("c", ""))),
+        ("rt-no-leak", format!("{}{}", b("a", "RTINSECONDS=120\n"), b("b", ""))),
+        ("peaks-no-leak", format!("BEGIN IONS\nTITLE=x\n300 3\n400 4\nEND IONS\n{}", b("b", ""))),
+        ("header-last-wins", format!("CHARGE=1+\nTOL=abc\nTOL=2\nTOLU=ppm\nCHARGE=2+\nTOL=xyz\nTOLU=Da\n{}", b("a", ""))),
+        ("header-query-fields-ignored", format!("TITLE=h\nPEPMASS=9\nRTINSECONDS=600\n300 3\nEND IONS\n{}", b("a", ""))),
+        ("block-last-wins", b("a", "TITLE=a2\nCHARGE=2+\nCHARGE=3+\nTOL=1\nTOL=2\nTOLU=Da\nTOLU=ppm\nRTINSECONDS=60\nRTINSECONDS=120\n")),
+        ("unicode-indent", "\u{3000}CHARGE=2+\u{a0}\n\u{2003}BEGIN IONS\n\u{a0}TITLE=a\u{3000}\n\u{85}PEPMASS=5\n\u{2028}100 1\nEND IONS\u{1680}\n".to_string()),
+        ("peak-first-char", "BEGIN IONS\nTITLE=a\nPEPMASS=5\n.5 1\n-3 1\n+7.25 1\n5. 1\n1e3 1\ninf 1\nEND IONS\n".to_string()),
+        ("rejected-intensity-drops-block", format!("{}{}", b("a", "200 abc\n"), b("b", ""))),
+        ("tol-negative", format!("{}{}", b("a", "TOL=-3\nTOLU=ppm\n"), b("b", "TOL=-0\nTOLU=Da\n"))),
+        ("unterminated", "BEGIN IONS\nTITLE=a\nPEPMASS=5\n100 1\n".to_string()),
+        ("unterminated", format!("BEGIN IONS\nTITLE=a\nPEPMASS=5\n100 1\n{}", b("b", ""))),
+    ]
+}
+
+fn mutate(rng: &mut Rng, base: &[u8]) -> (Vec<u8>, &'static str) {
+    let mut v = base.to_vec();
+    const INS: &[&[u8]] = &[
+        b"\0", b"\xff", b"\r", b"=", b"7", b"\n", b" ", "٣".as_bytes(), "²".as_bytes(), "½".as_bytes(), b"\xc3", b"+", b"-", b".",
+        b"e", b"BEGIN IONS\n", b"END IONS\n", "\u{a0}".as_bytes(), "\u{85}".as_bytes(), b"\x0b", b"\x0c", b"\x1c",
+    ];
+    match rng.below(9) {
+        0 => {
+            let k = rng.below(v.len() + 1);
+            v.truncate(k);
+            (v, "truncated")
+        }
+        1 => {
+            // truncate right after / inside a line start
+            let starts: Vec<usize> = (0..v.len()).filter(|&i| i == 0 || v[i - 1] == b'\n').collect();
+            if let Some(&s) = starts.get(rng.below(starts.len().max(1))) {
+                let extra = rng.below(6);
+                v.truncate((s + extra).min(v.len()));
+            }
+            (v, "truncated-at-line")
+        }
+        2 => {
+            if !v.is_empty() {
+                let k = rng.below(v.len());
+                v[k] ^= 1 << rng.below(8);
+            }
+            (v, "bit-flip")
+        }
+        3 | 4 => {
+            let k = rng.below(v.len() + 1);
+            let ins = *rng.pick(INS);
+            let tail = v.split_off(k);
+            v.extend_from_slice(ins);
+            v.extend(tail);
+            (v, "inserted-bytes")
+        }
+        5 => {
+            if !v.is_empty() {
+                let k = rng.below(v.len());
+                let n = 1 + rng.below(4);
+                let end = (k + n).min(v.len());
+                v.drain(k..end);
+            }
+            (v, "deleted-bytes")
+        }
+        6 | 7 => {
+            // line-level: drop / duplicate / swap
+            let mut lines: Vec<Vec<u8>> = v.split(|&b| b == b'\n').map(|l| l.to_vec()).collect();
+            let kind = rng.below(3);
+            if lines.len() >= 2 {
+                let i = rng.below(lines.len());
+                let j = rng.below(lines.len());
+                match kind {
+                    0 => {
+                        lines.remove(i);
+                    }
+                    1 => {
+                        let l = lines[i].clone();
+                        lines.insert(j, l);
+                    }
+                    _ => lines.swap(i, j),
+                }
+            }
+            (lines.join(&b'\n'), ["dropped-line", "duplicated-line", "swapped-lines"][kind])
+        }
+        _ => {
+            // remove every BEGIN IONS line
+            let s = String::from_utf8_lossy(&v).replace("BEGIN IONS", if rng.chance(1, 2) { "" } else { "BEGIN_IONS" });
+            (s.into_bytes(), "no-BEGIN-IONS")
+        }
+    }
+}
+
+pub fn gen(rng: &mut Rng, tier: Tier, emit: &mut dyn FnMut(Case)) {
+    let quick = tier == Tier::Quick;
+    let none = Flags::default();
+    // directed
+    for (tag, text) in directed() {
+        emit_doc(emit, "mgf", 0, text.as_bytes(), &none, &["directed", tag]);
+    }
+    // exhaustive small scope over line kinds
+    let maxlen = if quick { 4 } else { 5 };
+    for len in 0..=maxlen {
+        let total = KINDS.len().pow(len as u32);
+        for code in 0..total {
+            let mut c = code;
+            let mut text = String::new();
+            for _ in 0..len {
+                text.push_str(KINDS[c % KINDS.len()]);
+                text.push('\n');
+                c /= KINDS.len();
+            }
+            let nt = nontrivial_text(text.as_bytes());
+            emit(Case::new(request("mgf", 0, text.as_bytes())).tag("exhaustive-lines").nontrivial(nt));
+        }
+    }
+    // structured documents (+ block permutations)
+    let n_struct = if quick { 1500 } else { 30000 };
+    let mut pool: Vec<Vec<u8>> = Vec::new();
+    for k in 0..n_struct {
+        let wellformed = rng.chance(40, 100);
+        let mut fl = Flags::default();
+        let st = gen_structured(rng, &mut fl, wellformed, if k % 10 == 0 { 8 } else { 4 });
+        let fid = if rng.chance(20, 100) { rng.below(1000) } else { 0 };
+        let mut r2 = rng.fork();
+        let mut r3 = r2.clone();
+        let text = render(&mut r2, &flat(&st), &mut fl);
+        emit_doc(emit, "mgf", fid, text.as_bytes(), &fl, &[if wellformed { "well-formed" } else { "loose" }]);
+        if pool.len() < 400 || rng.chance(1, 20) {
+            if pool.len() < 400 {
+                pool.push(text.clone().into_bytes());
+            } else {
+                let i = rng.below(pool.len());
+                pool[i] = text.clone().into_bytes();
+            }
+        }
+        if st.blocks.len() >= 2 && rng.chance(50, 100) {
+            let mut st2 = Structured { header: st.header.clone(), blocks: st.blocks.clone() };
+            rng.shuffle(&mut st2.blocks);
+            // same rendering choices as the original (same rng stream) where line counts agree
+            let text2 = render(&mut r3, &flat(&st2), &mut fl);
+            emit_doc(emit, "mgf", fid, text2.as_bytes(), &fl, &["blocks-permuted"]);
+        }
+    }
+    // malformed stream
+    for text in [
+        "", " ", "\n", "\r\n", "\n\n\n", "\t", "BEGIN IONS", "BEGIN IONS\n", "END IONS\n", "BEGIN IONS\nEND IONS\n", "\u{feff}BEGIN IONS\nTITLE=a\nPEPMASS=5\n1 1\nEND IONS\n",
+        "TITLE=a", "PEPMASS=", "=\n", "\0", "٣", "٣\n", "BEGIN IONS\n٣\n", "BEGIN IONS\n½\nEND IONS", "BEGIN IONS\nTITLE=a\nPEPMASS=5\n1",
+        "BEGIN IONS\nTITLE=a\nPEPMASS=5\n1\nEND IONS", "BEGIN IONS\nTITLE=a\nPEPMASS=5\n1\nEND ION",
+    ] {
+        emit_doc(emit, "mgfraw", 0, text.as_bytes(), &none, &["hand-made"]);
+    }
+    for bytes in [&b"\xff"[..], b"BEGIN IONS\n\xff\nEND IONS\n", b"\xc3", b"TITLE=\xe2\x82", b"\xed\xa0\x80", b"\xc0\x80", b"\xf4\x90\x80\x80", b"BEGIN IONS\nTITLE=a\nPEPMASS=5\n1 1\nEND IONS\n\xd9"] {
+        emit_doc(emit, "mgfraw", 0, bytes, &none, &["hand-made", "invalid-utf8"]);
+    }
+    let n_mut = if quick { 2500 } else { 50000 };
+    for _ in 0..n_mut {
+        let base = rng.pick(&pool).clone();
+        let (mut v, tag) = mutate(rng, &base);
+        let mut tags = vec![tag];
+        if rng.chance(20, 100) {
+            let (v2, tag2) = mutate(rng, &v);
+            v = v2;
+            tags.push(tag2);
+        }
+        if std::str::from_utf8(&v).is_err() {
+            tags.push("invalid-utf8");
+        }
+        emit_doc(emit, "mgfraw", 0, &v, &none, &tags);
+    }
 }
